@@ -9,6 +9,25 @@ BASELINE = ("cd /repo && env -u GSCRIB_VERIF /venv/bin/python -m pytest -ra -q -
 
 # id -> (technique, level text, level note, design ref)
 CLAIMED = {
+    "C10": (
+        "Lean 4 theorems: curve formulas written once over a scalar type with a Trig record and proved at the reals (Mathlib "
+        "Real.cos/sin, Complex.arg), filter/emission proved over Q for any sample list + two-stage differential correspondence "
+        "(Float instance of the same formulas at the thetas the real tracer used; exact filter/emit stage)",
+        "Proof: C10_arc_on_circle/_start/_end/_sweep/_z_linear, C10_arc_radius_choice/_minor_major, C10_helix, "
+        "C10_thread_radius (reals); C10_filter_subseq/_last, C10_cover, C10_emit_exact, C10_polyline_exact (rationals, any curve). "
+        "Oracle: geometric predicates on vertices reconstructed from the emitted G-code by an independent interpreter.",
+        "Trusted: Lean kernel, Mathlib analysis modules in proof files, libm/numpy trig and sqrt (the Float instance is compared "
+        "within 1e-9), scipy CubicSpline (trusted to interpolate), model tied by correspondence, harness.",
+        "DESIGN.md section 7 / C10",
+    ),
+    "C12": (
+        "Lean 4 theorems about _filter_segments over Q for any list of sample distances (structural induction) and a real-analysis "
+        "chord bound + differential correspondence on the real tracer's own samples at res and res/2",
+        "Proof: C12_seg_bounds, C12_count_bounds, C12_halving_partial (two explicit sampling hypotheses), C12_units, "
+        "C12_chord_error. Oracle: measured segment lengths, counts, monotone count under halving, sagitta bound, both unit systems.",
+        "Trusted: as C10. The lower bound is on accumulated sample length (the chord is shorter by the curvature term).",
+        "DESIGN.md section 7 / C12",
+    ),
     "C08": (
         "Lean 4 theorems over a hand-written model of DefaultFormatter (own digit printer/parser, round-half-even, parameters, "
         "command, comment, line) and of every way the builder assembles a statement, with an independent block lexer "
